@@ -2,7 +2,9 @@ package props
 
 import (
 	"bytes"
+	"context"
 	"fmt"
+	"github.com/ipld/go-ipld-prime/storage/fsstore"
 	"io"
 	"os"
 	"os/exec"
@@ -53,7 +55,7 @@ func (c20) ID() string { return "C20" }
 func (c20) Plan(tier string) fw.Plan {
 	p := fw.Plan{
 		Batches: 8, Cases: 10, Race: true, TimeoutSec: 1500, Level: "exploration",
-		Rule: "race-detector build. One case = one pool of shared objects (basicnode trees; bindnode typed and representation views of wrapped Go values with explicit and inferred schemas; generated-code typed and representation nodes; decoded nodes; subset matches incl. stream-backed bytes; compiled selectors; type systems and typed prototypes; the default multicodec registry; a LinkSystem over a pre-filled read-only memstore; one shared *traversal.Config with nil defaults) whose per-operation result digests are computed sequentially first; then G ∈ {4,16,64} goroutines each run a seeded sequence of read-only operations on the SHARED objects (full read-out, DeepEqual, Copy into a fresh builder, encode with each codec, WalkAdv/WalkMatching with the shared selector and config, Load/LoadRaw/ComputeLink through the shared link system, bindnode.Wrap/Prototype with explicit and (already inferred) inferred schemas, NewBuilder from shared prototypes then build) under varying GOMAXPROCS; every goroutine's digests must equal the sequential ones; race reports (halt_on_error=0, log files) are de-duplicated by the innermost go-ipld-prime frames of both accesses and each distinct one is a violation; a fatal 'concurrent map' death is a violation. An atomic table counts which operation kinds were in flight on the same object at the same time. Non-trivial: a run with ≥20 distinct overlapping operation pairs; distinct by pool hash.",
+		Rule:        "race-detector build. One case = one pool of shared objects (basicnode trees; bindnode typed and representation views of wrapped Go values with explicit and inferred schemas; generated-code typed and representation nodes; decoded nodes; subset matches incl. stream-backed bytes; compiled selectors; type systems and typed prototypes; the default multicodec registry; a LinkSystem over a pre-filled read-only memstore; one shared *traversal.Config with nil defaults) whose per-operation result digests are computed sequentially first; then G ∈ {4,16,64} goroutines each run a seeded sequence of read-only operations on the SHARED objects (full read-out, DeepEqual, Copy into a fresh builder, encode with each codec, WalkAdv/WalkMatching with the shared selector and config, Load/LoadRaw/ComputeLink through the shared link system, bindnode.Wrap/Prototype with explicit and (already inferred) inferred schemas, NewBuilder from shared prototypes then build) under varying GOMAXPROCS; every goroutine's digests must equal the sequential ones; race reports (halt_on_error=0, log files) are de-duplicated by the innermost go-ipld-prime frames of both accesses and each distinct one is a violation; a fatal 'concurrent map' death is a violation. An atomic table counts which operation kinds were in flight on the same object at the same time. Non-trivial: a run with ≥20 distinct overlapping operation pairs; distinct by pool hash.",
 		Assumptions: []string{"the race detector only reports races that occur in an execution it watches", "first-time schema inference for a new Go type while other goroutines use inferred-schema nodes is probed separately (known finding, see known_findings.json)"},
 		MinEvents:   []string{"concurrent_ops", "distinct_overlapping_pairs", "digest_comparisons", "op:readout", "op:walk", "op:load", "op:bind", "op:encode", "op:build", "goroutines_started"},
 	}
@@ -212,6 +214,25 @@ func c20Build(rng *fw.RNG) *c20Pool {
 	}
 	lsys := cidlink.DefaultLinkSystem()
 	lsys.SetReadStorage(ms)
+	// every other pool keeps the same blocks in a filesystem store that is only read from here on
+	if rng.Bool() {
+		if dir, err := os.MkdirTemp("", "verif-c20-fs-"); err == nil {
+			c20TempDirs = append(c20TempDirs, dir)
+			fs := &fsstore.Store{}
+			if fs.InitDefaults(dir) == nil {
+				ok := true
+				for l, b := range gr.Blocks {
+					if fs.Put(context.Background(), l, b) != nil {
+						ok = false
+					}
+				}
+				if ok {
+					lsys.SetReadStorage(fs)
+					c20FSPools++
+				}
+			}
+		}
+	}
 	cfg := &traversal.Config{LinkSystem: lsys, LinkTargetNodePrototypeChooser: func(datamodel.Link, linking.LinkContext) (datamodel.NodePrototype, error) {
 		return basicnode.Prototype.Any, nil
 	}}
@@ -334,6 +355,14 @@ var sharedCfg = &traversal.Config{} // shared by every walk of every goroutine, 
 
 func (c20) RunCase(c *fw.Ctx, rng *fw.RNG, batch, i int) {
 	pool := c20Build(rng)
+	defer func() {
+		for _, d := range c20TempDirs {
+			os.RemoveAll(d)
+		}
+		c20TempDirs = nil
+		c.Count("pools_over_fsstore", c20FSPools)
+		c20FSPools = 0
+	}()
 	// Warm mode: sequential reference results first. Cold mode: the very first use of every
 	// shared object happens in the goroutines (lazily filled caches are cold); the goroutines'
 	// digests are then compared with each other and with a sequential run made afterwards.
@@ -354,7 +383,9 @@ func (c20) RunCase(c *fw.Ctx, rng *fw.RNG, batch, i int) {
 	var coldMu sync.Mutex
 	G := []int{4, 16, 64}[rng.Intn(3)]
 	procs := []int{2, 4, 8, 16}[rng.Intn(4)]
-	c.SetCase(func() any { return map[string]any{"goroutines": G, "gomaxprocs": procs, "operations": len(pool.ops), "cold": cold} })
+	c.SetCase(func() any {
+		return map[string]any{"goroutines": G, "gomaxprocs": procs, "operations": len(pool.ops), "cold": cold}
+	})
 	if c.WantSample() {
 		kinds := map[string]int{}
 		for _, op := range pool.ops {
@@ -511,9 +542,80 @@ func c20InferenceProbe() {
 	bindnode.Prototype((*c20New3)(nil), nil)
 	close(stop)
 	wg.Wait()
+	// phase 2: several goroutines bind the SAME not-yet-inferred Go types at the same instant; every call
+	// must succeed and name the same schema type (binding is a pure function of its arguments, also when
+	// the first calls coincide)
+	fresh := []func() string{
+		func() string { return bindnode.Prototype((*c20F0)(nil), nil).Type().Name() },
+		func() string { return bindnode.Wrap(&c20F1{X: []c20F2{{Y: []string{"y"}}}}, nil).Type().Name() },
+		func() string { return bindnode.Prototype((*c20F3)(nil), nil).Type().Name() },
+		func() string { return bindnode.Wrap(&c20F4{Z: [][]int64{{1}}}, nil).Type().Name() },
+		func() string { return bindnode.Prototype((*c20F5)(nil), nil).Type().Name() },
+		func() string { return bindnode.Wrap(&c20F6{}, nil).Type().Name() },
+	}
+	for round, f := range fresh {
+		const G = 8
+		names := make([]string, G)
+		fails := make([]string, G)
+		start := make(chan struct{})
+		var wg2 sync.WaitGroup
+		for g := 0; g < G; g++ {
+			wg2.Add(1)
+			go func(g int) {
+				defer wg2.Done()
+				defer func() {
+					if r := recover(); r != nil {
+						fails[g] = fmt.Sprint(r)
+					}
+				}()
+				<-start
+				names[g] = f()
+			}(g)
+		}
+		close(start)
+		wg2.Wait()
+		for g := 0; g < G; g++ {
+			if fails[g] != "" {
+				fmt.Printf("CONCURRENT-FIRST-BINDING-FAILED round %d goroutine %d: %s\n", round, g, fails[g])
+				os.Exit(3)
+			}
+			if names[g] != names[0] {
+				fmt.Printf("CONCURRENT-FIRST-BINDING-DIFFERS round %d: %q vs %q\n", round, names[g], names[0])
+				os.Exit(3)
+			}
+		}
+	}
 }
 
+type (
+	c20F0 struct {
+		A string
+		B []c20F0b
+	}
+	c20F0b struct{ C int64 }
+	c20F1  struct{ X []c20F2 }
+	c20F2  struct{ Y []string }
+	c20F3  struct {
+		P c20F0b
+		Q []bool
+	}
+	c20F4 struct{ Z [][]int64 }
+	c20F5 struct {
+		R []float64
+		S c20F2
+	}
+	c20F6 struct {
+		T []c20F0b
+		U []float64
+	}
+)
+
 func setProcs(n int) int { return runtime.GOMAXPROCS(n) }
+
+// c20TempDirs: fsstore directories of the pools of this process (removed at the end of each case).
+var c20TempDirs []string
+
+var c20FSPools int64
 
 // Orchestrate runs the batches and then turns race reports into deviations.
 func (c20) Orchestrate(p *fw.Parent) error {
@@ -525,6 +627,15 @@ func (c20) Orchestrate(p *fw.Parent) error {
 		p.Count("inference_probe_runs", 1)
 		if err != nil && strings.Contains(string(out), "concurrent map") {
 			p.AddDeviation(fw.Deviation{Sig: "C20:data-race:bindnode.inferSchema-writes-default-typesystem", Detail: "the inference probe process died: " + clipS(string(out), 1500), Index: -1})
+		} else if strings.Contains(string(out), "CONCURRENT-FIRST-BINDING") {
+			line := string(out)[strings.Index(string(out), "CONCURRENT-FIRST-BINDING"):]
+			if i := strings.IndexByte(line, '\n'); i > 0 {
+				line = line[:i]
+			}
+			p.AddDeviation(fw.Deviation{Sig: "C20:concurrent-first-binding-fails", Detail: "several goroutines binding the same not-yet-inferred Go type at the same instant: " + clipS(line, 600), Index: -1})
+		} else if err != nil && fatalFirst(string(out)) != "" {
+			// (a bare non-zero exit is the race detector's exit code after it has reported; the reports are read below)
+			p.AddDeviation(fw.Deviation{Sig: "C20:inference-probe-died:" + fatalFirst(string(out)), Detail: "the inference probe process died: " + clipS(string(out), 1500), Index: -1})
 		}
 	}
 	files, _ := filepath.Glob(filepath.Join(p.WorkDir, "race.b*"))
